@@ -1,6 +1,7 @@
 """C31 Timer events fire no earlier than scheduled and in due order (DESIGN.md 3 virtual clock, 5.7, 6 C31;
 spec/Timer.tla, MC_Timer.tla, T_Timer.tla; harness/src/probe_timer.cpp)."""
 import json
+import os
 import random
 import re
 from concurrent.futures import ThreadPoolExecutor
@@ -9,7 +10,8 @@ import build
 import core
 import tlc
 
-PROBES = [("probe_timer", "asan", None, [])]
+RUNTIME = ["f8utils.cpp", "logger.cpp"]     # all the timer thread needs (Tickval, hypersleep, glout)
+PROBES = [("probe_timer", "asan", RUNTIME, [])]
 
 MANIFEST = dict(
     text='TLC proves NoEarlyFire, DueOrder, RepeatSpacing and ClearSilences on the timer design (queue of (id, due, interval, repeat), Schedule/Advance/Fire-least-due/Clear, arbitrarily late fires) for every interleaving up to the bound, and exports command histories (the transition cover of a small configuration plus simulated behaviours with up to 5 events); each history is replayed on the real Timer<T> thread against a virtual clock (the probe defines clock_gettime; sleeps stay real) with callbacks logging (id, instant the timer thread last read); TLC validates every recorded execution against the property monitor.',
@@ -123,8 +125,10 @@ def judge(ctx, name, execs, cases):
 
 
 def run(ctx):
+    if os.environ.get("VERIF_SELFTEST") == "1":
+        return selftest(ctx)
     rng = random.Random(ctx.seed)
-    binary = build.probe("probe_timer", "asan")
+    binary = build.probe("probe_timer", "asan", runtime=RUNTIME)
     ctx.tick("build")
     models(ctx)
     ctx.tick("model")
@@ -168,6 +172,8 @@ def run(ctx):
     k = done[len(done) // 3]
     ctx.sample({"commands": scheds[k], "trace": execs[k]})
     ctx.sample({"commands": scheds[done[-1]], "trace": execs[done[-1]]})
+    if not ctx.quick:
+        selftest(ctx)
     ctx.trusted = ["TLC", "probe_timer (moves data only)", "clock_gettime / clock_nanosleep interposition (virtual clock seam)",
                    "ASan/UBSan"]
     ctx.assumptions = ["time observed at the callback = the instant the timer thread last read from the clock",
@@ -175,7 +181,7 @@ def run(ctx):
 
 
 def selftest(ctx):
-    binary = build.probe("probe_timer", "asan")
+    binary = build.probe("probe_timer", "asan", runtime=RUNTIME)
     execs, _ = run_scheds(ctx, binary, [["new 1", "sched 1 10 0 1", "sched 2 5 0 1", "adv 20 1", "end"]], nproc=1)
     good, _, _ = tlc.validate_execs("T_Timer.tla", "T_Timer.cfg", execs, ctx.workdir, "c31self0", chunks=1)
     bad = json.loads(json.dumps(execs))
